@@ -240,7 +240,7 @@ pub fn check(scn: &Scenario, stats: &mut Stats) -> Vec<Violation> {
         for flags in &spec.modes {
             let force_color = spec.force_color && !flags.iter().any(|f| f == "--no-color");
             let cpu = if chars > 8_000 { 120 } else { 10 };
-            let Ok(run) = t2::run_rva(&t2::RvaCall { sandbox: &sb, base: &scn.world.base, flags, entropy: scn.entropy[0], plan: &spec.plan, profile: &spec.profile, force_color, cpu_seconds: cpu, raw_base: spec.raw_base_name.as_deref().map(t2::unhex), stdout_fault: spec.stdout_fault.as_deref(), fifos: fifos.clone() }) else {
+            let Ok(run) = t2::run_rva(&t2::RvaCall { sandbox: &sb, base: &scn.world.base, flags, entropy: scn.entropy[0], plan: &spec.plan, profile: &spec.profile, force_color, cpu_seconds: cpu, raw_base: spec.raw_base_name.as_deref().map(t2::unhex), stdout_fault: spec.stdout_fault.as_deref(), fifos: fifos.clone(), arg_style: 0 }) else {
                 stats.inc("harness:spawn_failed");
                 return out;
             };
